@@ -347,7 +347,8 @@ class ErrorHandler:
     def _update_error_with_char_pos(error_object):
         # This part is optional as you can always generate these as needed.
         start, end = ErrorHandler._get_tag_span_to_error_object(error_object)
-        if start is not None:
+        # An issue that already went through here keeps its offsets and its (single) suffix.
+        if start is not None and 'char_index' not in error_object:
             # silence warning in pycharm
             start = int(start)
             source_tag = error_object.get('source_tag', None)
@@ -408,7 +409,7 @@ def sort_issues(issues, reverse=False):
             if key in int_sort_list:
                 result.append(d.get(key, -1))
             else:
-                result.append(d.get(key, ""))
+                result.append(str(d.get(key, "")))  # column contexts of headerless files are integers
         return tuple(result)
 
     issues = sorted(issues, key=_get_keys, reverse=reverse)
